@@ -1,7 +1,7 @@
 """C13 - client transactions end in bounded time with a result and recover.
 
 The property is decomposed along the call structure of ModbusTransactionManager.execute; every piece is a lemma over the real code:
-  init            the retry options given to the manager are the ones it uses (retries = 0 is known to become 1)
+  init            the retry options given to the manager are the ones it uses
   decoder         ClientDecoder.decode lets no exception out, whatever _helper raises (so a framer's decode step yields a message or None)
   transact.<k>    real _transact / _recv / _send with a transport that returns anything or raises: at most ONE frame is written per call; a
                   transport error is caught, closes the connection and yields (b'', error); nothing else escapes (known: ASCII garbage)
@@ -12,7 +12,7 @@ The property is decomposed along the call structure of ModbusTransactionManager.
   result.<k>      execute, given transact/framer as established above: never raises, returns a message or a ModbusIOException, and leaves
                   client.state == TRANSACTION_COMPLETE and no reply slot behind (ready for the next call, which resets the framer itself)
   retry.<k>       bounded (retries 1..2, loop unrolled): with retry_on_empty (resp. retry_on_invalid) set, a valid reply that follows empty
-                  (resp. foreign) replies within the budget is returned - retry_on_empty alone is known not to retry
+                  (resp. foreign) replies within the budget is returned
   recover.<k>     bounded stand-in (executable twin only): scripts of faulty exchanges followed by a healthy one on the same real client
                   object; the healthy exchange returns its own reply
 Hanging: every loop of execute/_transact/_recv is bounded by the retry counter (sends lemma, variant) - blocking inside the transport's
@@ -43,7 +43,7 @@ def init_lemma(E):
     r = E.int('retries', 0, 10)
     roe, roi = E.bool('retry_on_empty'), E.bool('retry_on_invalid')
     tm = E.new(CL.TM, None, retries=r, retry_on_empty=roe, retry_on_invalid=roi)
-    E.prove('init:retries-option-is-used-as-given', tm.retries == r, finding='C13-F2', region=r == 0)
+    E.prove('init:retries-option-is-used-as-given', tm.retries == r)          # (C13-F2, retries=0 becoming 1, was repaired in /repo)
     E.prove('init:retry-flags-are-used-as-given', L.And(L.Iff(L.truth(tm.retry_on_empty), roe), L.Iff(L.truth(tm.retry_on_invalid), roi)))
 
 
@@ -282,7 +282,7 @@ def retry_lemma(kind, option, retries):
         E.assume(L.And(uid != 0, uid != 255, uid != 254))
         if kind == 'binary':
             E.assume(L.Or(uid < 0x7A, uid > 0x7D))        # delimiter bytes as unit id: C03-F1
-        fk = {'finding': 'C13-F1', 'region': L.Not(both)} if option == 'empty' else {}
+        fk = {}          # (C13-F1, retry_on_empty alone never retrying, was repaired in /repo)
         if E.mode != 'symbolic':
             E.set(req, 'count', 1)                       # the scripted replies carry one register
             for k in range(12):
